@@ -49,7 +49,24 @@ func (a *analysis) mock(np NamePair) {
 	mtparams := mnamed.TypeParams()
 	if itparams.Len() != mtparams.Len() {
 		a.add("C09", "%s has %d type parameters, interface %s has %d", np.Mock, mtparams.Len(), np.Iface, itparams.Len())
+		a.add("C02", "*%s cannot be assigned to %s: the mock has %d type parameters, the interface has %d", np.Mock, np.Iface, mtparams.Len(), itparams.Len())
 		return
+	}
+	// a generic mock that does not type-check implements no instance of the interface
+	if itparams.Len() > 0 {
+		if ts := c.MockDecl(np.Mock); ts != nil {
+			for _, e := range c.TypeErrs {
+				in := e.Pos >= ts.Pos() && e.Pos <= ts.End()
+				for _, fd := range c.MethodDecls(np.Mock) {
+					if e.Pos >= fd.Pos() && e.Pos <= fd.End() {
+						in = true
+					}
+				}
+				if in {
+					a.add("C09", "generic mock %s does not type-check: %s", np.Mock, e.Msg)
+				}
+			}
+		}
 	}
 	ptrMock := types.Type(types.NewPointer(mnamed))
 	ifaceT := itype
